@@ -44,14 +44,15 @@ ASSUMPTIONS = (
 STATUSES = [(200, 200), (201, 201), (204, 204), (304, 304), (404, 404), (799, 799), (101, 101),
             ('200 OK', 200), ('204 No Content', 204), ('204 Custom Reason', 204), ('299 Fine by me', 299),
             ('304 Unchanged', 304), ('HTTPStatus.CREATED', 201), ('HTTPStatus.NO_CONTENT', 204),
-            ('HTTPStatus.NOT_MODIFIED', 304), (500, 500), ('100 Continue', 100)]
+            ('HTTPStatus.NOT_MODIFIED', 304), (500, 500), ('100 Continue', 100),
+            ('bytes:201 Created', 201), ('bytes:204 No Content', 204)]
 BODILESS = (100, 101, 204, 304)
 
 
 def gen_spec(ch, asgi):
     s = {}
     s['method'] = ch.choice(['GET', 'GET', 'HEAD', 'POST', 'OPTIONS'], 'method')
-    s['status'] = list(STATUSES[ch.weighted([6, 2, 3, 2, 1, 1, 1, 2, 1, 2, 1, 1, 1, 1, 1, 1, 1], 'status')])
+    s['status'] = list(STATUSES[ch.weighted([6, 2, 3, 2, 1, 1, 1, 2, 1, 2, 1, 1, 1, 1, 1, 1, 1, 1, 1], 'status')])
     src = ch.draw(16, 'sources') if ch.draw(3, 'multi_src') == 2 else [0, 1, 2, 4, 8][ch.draw(5, 'one_src')]
     s['text'] = ch.choice(['hello', 'ünï ✓', '', 'x' * 30], 'text') if src & 1 else None
     s['data'] = ch.choice([b'DATA', b'', b'\x00\xff\xfe', b'd' * 25], 'data').decode('latin-1') if src & 2 else None
@@ -62,7 +63,8 @@ def gen_spec(ch, asgi):
             ['list', 'gen', 'iter_obj', 'file', 'file_noclose', 'file_short']
         n = ch.draw(5, 'n_chunks')
         chunks = [('c%d' % i) * (1 + ch.draw(6, 'clen')) for i in range(n)]
-        s['stream'] = {'kind': ch.choice(kinds, 'stream_kind'), 'chunks': chunks}
+        s['stream'] = {'kind': ch.choice(kinds, 'stream_kind'), 'chunks': chunks,
+                       'set_stream': ch.draw(4, 'via_set_stream') == 3}
     s['sse'] = None
     if asgi and src == 0 and ch.draw(3, 'sse') == 2:
         n = 1 + ch.draw(4, 'n_events')
@@ -234,6 +236,8 @@ def sse_reference(ev):
 def resolve_status(sv):
     if isinstance(sv, str) and sv.startswith('HTTPStatus.'):
         return getattr(http.HTTPStatus, sv[11:])
+    if isinstance(sv, str) and sv.startswith('bytes:'):
+        return sv[6:].encode()
     return sv
 
 
@@ -314,7 +318,12 @@ def run(ctx):
         if spec['media'] is not None:
             resp.media = spec['media']
         if spec['stream'] is not None:
-            resp.stream = make_stream(spec['stream'], asgi, fault, cnt)
+            if spec['stream'].get('set_stream'):
+                # set_stream(stream, content_length): the declared length goes out as Content-Length
+                resp.set_stream(make_stream(spec['stream'], asgi, fault, cnt),
+                                len(b''.join(c.encode() for c in spec['stream']['chunks'])))
+            else:
+                resp.stream = make_stream(spec['stream'], asgi, fault, cnt)
         if spec['preset_cl'] is not None:
             resp.content_length = spec['preset_cl']
         for i in range(spec['cookies']):
